@@ -237,8 +237,14 @@ func (fr *Frame) applyContract(spec *FuncSpec, fn *ssa.Function, sig *types.Sign
 			continue
 		}
 		for _, t := range ts {
+			if e.ownerOn() && t.Kind == "at" && t.Comp == "A_byte" {
+				fr.ownerWriteCheck(pre, t.Base, pos, "callee "+spec.Key+" writes "+m)
+			}
 			e.havocTarget(st, t)
 		}
+	}
+	if e.ownerOn() {
+		e.ownerAfterCall(st, st.pc, nx0)
 	}
 	res := fr.havocResults(sig, st, spec.Key)
 	bindResults(cf, res)
@@ -267,9 +273,10 @@ func (fr *Frame) applyContract(spec *FuncSpec, fn *ssa.Function, sig *types.Sign
 type modTarget struct {
 	Comp string
 	Sort Sort
-	Kind string // whole | at | loc
+	Kind string // whole | at | loc | elems
 	Base string
 	Loc  *Loc
+	In   string // for kind "elems": name of a unary predicate (define-fun) telling whether a reference is a target
 }
 
 func (cf *Frame) evalTargets(src string, pre *State) ([]modTarget, error) {
@@ -315,6 +322,37 @@ func (cf *Frame) evalTargets(src string, pre *State) ([]modTarget, error) {
 	c := &evalCtx{fr: cf, cur: pre, old: pre, vars: map[string]*Val{}, pkg: cf.specPkg}
 	for k, v := range cf.specVars {
 		c.vars[k] = v
+	}
+	if x.Op == "sel" && x.Args[0].Op == "all" {
+		// s[*].f : field f of every object the slice s (of pointers) refers to
+		v, err := c.ev(x.Args[0].Args[0])
+		if err != nil {
+			return nil, err
+		}
+		sl, ok := v.GoT.Underlying().(*types.Slice)
+		if !ok {
+			return nil, fmt.Errorf("modifies %s: not a slice", src)
+		}
+		pt, ok := sl.Elem().Underlying().(*types.Pointer)
+		if !ok {
+			return nil, fmt.Errorf("modifies %s: elements are not pointers", src)
+		}
+		st, ok := pt.Elem().Underlying().(*types.Struct)
+		if !ok {
+			return nil, fmt.Errorf("modifies %s: elements do not point to structs", src)
+		}
+		ecomp, es := e.elemComp(sl.Elem())
+		elems := sSel(e.get(pre, ecomp, arrSort(es)), "(s-arr "+v.T+")")
+		e.ctr++
+		in := fmt.Sprintf("inT!%d", e.ctr)
+		e.declRaw(fmt.Sprintf("(define-fun %s ((r Int)) Bool (exists ((i Int)) (and (<= 0 i) (< i (s-len %s)) (= r (select %s (ix (s-off %s) i))))))", in, v.T, elems, v.T))
+		for i := 0; i < st.NumFields(); i++ {
+			if st.Field(i).Name() == x.Name {
+				cc, cs, _ := e.fieldComp(pt.Elem(), i)
+				return []modTarget{{Comp: cc, Sort: "(Array Int " + cs + ")", Kind: "elems", In: in}}, nil
+			}
+		}
+		return nil, fmt.Errorf("unbound:%s", x.Name)
 	}
 	if x.Op == "all" {
 		v, err := c.ev(x.Args[0])
@@ -376,6 +414,13 @@ func (e *Enc) havocTarget(st *State, t modTarget) {
 		inner := t.Sort[len("(Array Int ") : len(t.Sort)-1]
 		f := e.fresh("hv", inner)
 		e.set(st, t.Comp, t.Sort, sStore(e.get(st, t.Comp, t.Sort), t.Base, f))
+	case "elems":
+		n := e.fresh(t.Comp, t.Sort)
+		old := e.get(st, t.Comp, t.Sort)
+		e.ctr++
+		q := fmt.Sprintf("er!%d", e.ctr)
+		e.assume(st.pc, fmt.Sprintf("(forall ((%s Int)) (! (=> (not (%s %s)) (= (select %s %s) (select %s %s))) :pattern ((select %s %s))))", q, t.In, q, n, q, old, q, n, q))
+		st.heap[t.Comp] = n
 	case "loc":
 		l := t.Loc
 		s := l.CS
@@ -630,6 +675,11 @@ func (fr *Frame) appendBuiltin(common *ssa.CallCommon, args []*Val, st *State, p
 		e.assume(st.pc, fmt.Sprintf("(forall ((%s Int)) (! (= (select %s %s) (ite (< %s (s-len %s)) (select %s (+ (s-off %s) %s)) (select %s (+ %s (- %s (s-len %s)))))) :pattern ((select %s %s))))",
 			i, newB, i, i, s.T, oldA, s.T, i, srcCont, srcLo, i, s.T, newB, i))
 	}
+	if e.ownerOn() && comp == "A_byte" {
+		ow0 := e.get(st, "Owner", "(Array Int Int)")
+		e.oblige("owner", "no write into a caller-owned array: "+fr.srcText(pos), st.pc,
+			sOr(sNot(fits), "(= "+n+" 0)", "(= "+sSel(ow0, "(s-arr "+s.T+")")+" 1)"), nil, pos, "append in place")
+	}
 	// when nothing is appended to a nil slice the result stays nil: the in-place case covers it (0 <= cap)
 	e.set(st, comp, srt, sIte(fits, sStore(cur, "(s-arr "+s.T+")", newA), sStore(cur, r, newB)))
 	e.set(st, "$next", "Int", sIte(fits, nx, "(+ "+nx+" 1)"))
@@ -727,6 +777,7 @@ type FuncResult struct {
 func verifyFunction(g *G, fn *ssa.Function, spec *FuncSpec) *FuncResult {
 	e := newEnc(g, fn)
 	e.content = spec != nil && containsStr(spec.Abstracts, "!content") == false && spec != nil && spec.Content
+	e.owner = spec != nil && spec.Ownership
 	fr := e.newFrame(fn, nil)
 	fr.isTop = true
 	st := &State{pc: "true", heap: map[string]string{}}
